@@ -32,6 +32,8 @@ func vSameBytes(a, b []byte) bool {
 	return ok
 }
 
+var vCRLF bool
+
 func vC17(lengths []int, dmax int) {
 	var in []Fasta
 	buf := &bytes.Buffer{}
@@ -43,7 +45,19 @@ func vC17(lengths []int, dmax int) {
 		vAssert("write-ok", err == nil)
 	}
 	vCover("written")
-	recs, seqs, err := vScanAll(buf.Bytes(), len(lengths)+1)
+	text := buf.Bytes()
+	if vCRLF {
+		// the same stream with CRLF line ends (C17's quantifier: LF and CRLF input)
+		var t []byte
+		for _, c := range text {
+			if c == '\n' {
+				t = append(t, '\r')
+			}
+			t = append(t, c)
+		}
+		text = t
+	}
+	recs, seqs, err := vScanAll(text, len(lengths)+1)
 	vAssert("read-ok", err == nil)
 	vAssert("same-count", recs == len(in))
 	if recs != len(in) {
@@ -62,11 +76,21 @@ func vC17(lengths []int, dmax int) {
 	vObserve("outlen", buf.Len())
 }
 
-//verif:harness prop=C17 quick=8 thorough=16 merge=concrete
-//verif:bounds FASTA write->read: one or two records; description 0..2 (quick) / 0..4 (thorough) fully symbolic bytes without line breaks; residues symbolic over printable ASCII minus '>' with lengths {0,1,2,69,70,71,140,141} (quick) plus {139,142,209,210,211} and three-record streams (thorough)
+//verif:harness prop=C17 quick=10 thorough=18 merge=concrete
+//verif:bounds FASTA write->read: one or two records; description 0..2 (quick) / 0..4 (thorough) fully symbolic bytes without line breaks; residues symbolic over printable ASCII minus '>' with lengths {0,1,2,69,70,71,140,141} (quick) plus {139,142,209,210,211} and three-record streams (thorough); two shards re-read the written stream with CRLF line ends
 func VH_C17_fasta_roundtrip() {
 	dmax := 2 + 2*vTier()
-	switch vShard(8 + 8*vTier()) {
+	sh := vShard(10 + 8*vTier())
+	if sh >= 8+8*vTier() {
+		vCRLF = true
+		if sh%2 == 0 {
+			vC17([]int{71}, 1)
+		} else {
+			vC17([]int{1, 70}, 1)
+		}
+		return
+	}
+	switch sh {
 	case 0:
 		vC17([]int{0}, dmax)
 	case 1:
